@@ -79,6 +79,8 @@ extern FaultInfo g_fault;
 extern sigjmp_buf g_fault_jmp;
 extern volatile int g_fault_armed;
 void install_fault_handler();
+// set by a coroutine scheduler user: called from the SIGVTALRM handler when a task's step exceeds its CPU limit
+extern void (*g_step_hang_hook)();
 
 // canary helpers
 void canary_fill(uint8_t *p, size_t n, uint64_t seed, size_t phase);
